@@ -216,6 +216,11 @@ fn attack(ctx: &Ctx, b: &Bundle) {
         };
         let hit = |xx: &Integer| -> Option<String> {
             for k in exps(xx) {
+                // g^0 = 1 is the quotient of any two fields that carry the same group element (by design the
+                // proof of square repeats E_a_1): it says nothing about the hidden value
+                if k == 0 {
+                    continue;
+                }
                 let gk = if k >= 0 { powm(g, &k, n) } else { match powm(g, &Integer::from(-&k), n).invert(n) { Ok(v) => v, Err(_) => continue } };
                 if let Some(w) = combos.get(&gk) {
                     return Some(w.clone());
@@ -228,6 +233,83 @@ fn attack(ctx: &Ctx, b: &Bundle) {
             let decoy = Integer::from(x ^ Integer::from(0x33u32));
             if hit(&decoy).is_none() {
                 found.push((format!("{}{}", path_class(prefix), w), "no-blinding-left".into(), "combination-of-sibling-commitments".into(), kind.clone()));
+            }
+        }
+    }
+    // blinding that cancels between ANY two group elements the recipient holds (proof fields and the public
+    // inputs): V / W or V * W equal to a product of public bases raised to +-(hidden attribute values) lets
+    // the recipient confirm guessed values. Decoy values must not hit.
+    if !b.hidden.is_empty() {
+        let vals: Vec<(&Integer, &String)> = values.iter().filter(|(v, _)| v.significant_bits() + 64 > n.significant_bits()).collect();
+        let mut combos: HashMap<Integer, String> = HashMap::new();
+        for (i, (va, pa)) in vals.iter().enumerate() {
+            let Ok(inva) = (*va).clone().invert(n) else { continue };
+            for (vb, pb) in vals.iter().skip(i + 1) {
+                combos.entry(mulm(vb, &inva, n)).or_insert_with(|| format!("{}/{}", pb, pa));
+                if let Ok(invb) = (*vb).clone().invert(n) {
+                    combos.entry(mulm(va, &invb, n)).or_insert_with(|| format!("{}/{}", pa, pb));
+                }
+                combos.entry(mulm(va, vb, n)).or_insert_with(|| format!("{}*{}", pa, pb));
+            }
+        }
+        ctx.count("pairwise_combinations_of_group_elements", combos.len() as u64);
+        let k = b.hidden.len();
+        let mut eps: Vec<Vec<i32>> = vec![];
+        if k <= 4 {
+            let total = 3usize.pow(k as u32);
+            for code in 1..total {
+                let mut c = code;
+                eps.push((0..k).map(|_| { let d = (c % 3) as i32; c /= 3; if d == 2 { -1 } else { d } }).collect());
+            }
+        } else {
+            for i in 0..k {
+                for s1 in [1, -1] {
+                    let mut e = vec![0; k];
+                    e[i] = s1;
+                    eps.push(e.clone());
+                    for j in i + 1..k.min(i + 4) {
+                        for s2 in [1, -1] {
+                            let mut e2 = e.clone();
+                            e2[j] = s2;
+                            eps.push(e2);
+                        }
+                    }
+                }
+            }
+        }
+        let families: Vec<Vec<&(String, Integer, Integer)>> = vec![
+            b.base_pairs.iter().filter(|x| x.0.starts_with("(g_")).collect(),
+            b.base_pairs.iter().filter(|x| x.0.starts_with("(a_")).collect(),
+        ];
+        let hit = |vals_of: &dyn Fn(usize) -> Integer| -> Option<(String, Vec<i32>)> {
+            for pairs in &families {
+                if pairs.is_empty() {
+                    continue;
+                }
+                let pw: Vec<(Integer, Integer)> = b.hidden.iter().enumerate().map(|(hk, (i, _))| {
+                    let p = powm(&pairs[*i].1, &vals_of(hk), n);
+                    let inv = p.clone().invert(n).unwrap_or_else(|_| Integer::from(1));
+                    (p, inv)
+                }).collect();
+                for e in &eps {
+                    let mut t = Integer::from(1);
+                    for (hk, s) in e.iter().enumerate() {
+                        if *s == 1 { t = mulm(&t, &pw[hk].0, n) } else if *s == -1 { t = mulm(&t, &pw[hk].1, n) }
+                    }
+                    if t == 1 {
+                        continue;
+                    }
+                    if let Some(w) = combos.get(&t) {
+                        return Some((w.clone(), e.clone()));
+                    }
+                }
+            }
+            None
+        };
+        ctx.count("cancellation_tests(any two group elements)", eps.len() as u64 * 2);
+        if let Some((w, e)) = hit(&|hk| b.hidden[hk].1.clone()) {
+            if hit(&|hk| Integer::from(&b.hidden[hk].1 ^ Integer::from(0x5a5a5au32))).is_none() {
+                found.push((w, format!("exponents{:?}", e), "no-blinding-left".into(), "combination-of-two-group-elements~hidden-attributes".into()));
             }
         }
     }
